@@ -67,6 +67,14 @@ type AccountingSession struct {
 	lastReportedInPackets  uint64
 	lastReportedOutPackets uint64
 
+	// lastSent* is the high-water mark of every cumulative value handed
+	// to the provider, acknowledged or not: a request whose response was
+	// lost may still have been received, so no later report may be lower.
+	lastSentInOctets   uint64
+	lastSentOutOctets  uint64
+	lastSentInPackets  uint64
+	lastSentOutPackets uint64
+
 	currentBaselineInBytes    uint64
 	currentBaselineOutBytes   uint64
 	currentBaselineInPackets  uint64
@@ -308,10 +316,7 @@ func (c *Component) fetchInterfaceStats() map[uint32]*southbound.InterfaceStats 
 
 func (c *Component) sendAccountingUpdate(acctSession *AccountingSession, statsByIdx map[uint32]*southbound.InterfaceStats, l2gwStats map[uint32]southbound.L2GWEntryStats) {
 	acctSession.mu.Lock()
-	rxBytes, txBytes, rxPackets, txPackets := acctSession.lastReportedInOctets,
-		acctSession.lastReportedOutOctets,
-		acctSession.lastReportedInPackets,
-		acctSession.lastReportedOutPackets
+	rxBytes, txBytes, rxPackets, txPackets := acctSession.reportFloor()
 	if acctSession.accessType == models.AccessTypeL2GW {
 		// l2gw circuits count in the plugin's own stats segment: the
 		// access-direction entry is subscriber upstream (input), the
@@ -331,6 +336,7 @@ func (c *Component) sendAccountingUpdate(acctSession *AccountingSession, statsBy
 	} else if stats, ok := statsByIdx[acctSession.swIfIndex]; ok {
 		rxBytes, txBytes, rxPackets, txPackets = acctSession.applyVPPCounters(stats)
 	}
+	acctSession.noteSent(rxBytes, txBytes, rxPackets, txPackets)
 	acctSession.mu.Unlock()
 
 	session := &auth.Session{
@@ -354,6 +360,9 @@ func (c *Component) sendAccountingUpdate(acctSession *AccountingSession, statsBy
 
 	if err := c.authProvider.UpdateAccounting(c.Ctx, session); err != nil {
 		c.logger.Debug("Accounting update failed", "session_id", acctSession.sessionID, "error", err)
+		// The request may have been received although no response came
+		// back: persist LastSent so that a restart does not report less.
+		c.checkpointAcctSession(acctSession)
 		return
 	}
 
@@ -768,10 +777,7 @@ func (c *Component) handleSessionRelease(sessionId, username, mac, acctSessionID
 
 		statsByIdx := c.fetchInterfaceStats()
 		acctSession.mu.Lock()
-		rxBytes, txBytes, rxPackets, txPackets = acctSession.lastReportedInOctets,
-			acctSession.lastReportedOutOctets,
-			acctSession.lastReportedInPackets,
-			acctSession.lastReportedOutPackets
+		rxBytes, txBytes, rxPackets, txPackets = acctSession.reportFloor()
 		if stats, ok := statsByIdx[acctSession.swIfIndex]; ok {
 			rxBytes, txBytes, rxPackets, txPackets = acctSession.applyVPPCounters(stats)
 		}
